@@ -73,6 +73,8 @@ def scenario(tid, d, sizes, atoms, cap, rng, ndraws):
         hdr.update({"adm": adm, "w": w, "S": S})
         if abs(S - lam) > 1e-6:
             hdr["S"] = -1               # the sampler's intensity is not the mass of the admissible states: Numeric
+        if not hasattr(smp, "_max_storage"):
+            raise AttributeError("'InversionMethod' object has no attribute '_max_storage'")
         smp._max_storage = cap
         ev.append(dict(observe(smp, raw_of, lam), e="Built"))
         for _ in range(ndraws):
